@@ -58,7 +58,15 @@ Theorem C30_registry_nx_exclusive : forall (k v1 v2 : nat) (r r1 r2 : reg nat) b
   r_put_if_absent k v1 r = (r1, b1) -> r_put_if_absent k v2 r1 = (r2, b2) -> b1 && b2 = false.
 Proof. exact (@r_pia_exclusive nat). Qed.
 
+(* M-REGISTRY contract: a held claim keeps every later NX put out for as long as nothing writes or removes that key
+   (records never expire on their own). *)
+Theorem C30_registry_claim_persists : forall (k v w : nat) (ops : list (@rop nat)) (r : reg nat),
+  r_get k r = Some v -> forallb (fun o => negb (touches k o)) ops = true ->
+  snd (r_put_if_absent k w (fold_left (fun r o => fst (r_apply r o)) ops r)) = false.
+Proof. exact (@r_claim_blocks nat). Qed.
+
 Print Assumptions C30_refuted.
+Print Assumptions C30_registry_claim_persists.
 Print Assumptions C30_registry_refuted.
 Print Assumptions C30_refuted_no_failure.
 Print Assumptions C30_registry_nx_exclusive.
